@@ -45,6 +45,16 @@ WalkResp(frames, err, moves, acc) ==     \* frames: seq of tags; err: None | Som
   IF moves = <<>> THEN acc
   ELSE LET m == Head(moves)  len == Len(frames) + (IF err = None THEN 0 ELSE 1) IN
     IF m = "s" THEN WalkResp(frames, err, Tail(moves), Append(acc, <<"size", len>>))
+    ELSE IF m \in {"t1", "t2", "t3", "r1", "r2"} THEN       \* nth(k) / nth_back(k): skip k items from that end, yield the next, or nothing if fewer are left
+         LET it == [j \in 1..Len(frames) |-> <<"ok", frames[j]>>] \o (IF err = None THEN <<>> ELSE <<<<"err", err[1]>>>>)
+             k == IF m \in {"t1", "r1"} THEN 1 ELSE IF m \in {"t2", "r2"} THEN 2 ELSE 3
+             front == m \in {"t1", "t2", "t3"}
+             hit == Len(it) > k
+             res == IF ~hit THEN <<"none", 0>> ELSE IF front THEN it[k + 1] ELSE it[Len(it) - k]
+             rest == IF ~hit THEN <<>> ELSE IF front THEN SubSeq(it, k + 2, Len(it)) ELSE SubSeq(it, 1, Len(it) - k - 1)
+             restErr == rest # <<>> /\ rest[Len(rest)][1] = "err"
+             fr == [j \in 1..(Len(rest) - (IF restErr THEN 1 ELSE 0)) |-> rest[j][2]] IN
+         WalkResp(fr, IF restErr THEN err ELSE None, Tail(moves), Append(acc, res))
     ELSE IF m = "n" THEN
          (IF frames # <<>> THEN WalkResp(Tail(frames), err, Tail(moves), Append(acc, <<"ok", Head(frames)>>))
           ELSE IF err # None THEN WalkResp(frames, None, Tail(moves), Append(acc, <<"err", err[1]>>))
